@@ -11,6 +11,8 @@ Record mfc_case := {
   mfc_ratio_bits : Z; mfc_block_reward : Z; mfc_rate_bits : Z; mfc_nmd : Z; mfc_nsd : Z;
   mfc_round : Z; mfc_generator : Z; mfc_fees : list Z;
   mfc_client : Z; mfc_in_round : Z;
+  mfc_block_names : list Z;        (* function-name tokens of the block's transactions (1 = payFees, 0 = ordinary) *)
+  mfc_block_accepted : bool;       (* result of the real miner.ValidateTransactions *)
   mfc_miner : option mfc_node; mfc_live : bool; mfc_sharders : list mfc_node;
   mfc_mdraws : list nat; mfc_sdraws : list (list nat);
   mfc_out : Z;                                    (* 0 ok, 1 error, 2 panic *)
@@ -40,7 +42,11 @@ Fixpoint mfc_nodes_eqb (l : list mf_node) (xs : list (Z * list Z)) : bool :=
   | _, _ => false
   end.
 
+Definition mfc_builtin (fn : Z) : bool := (1 <=? fn) && (fn <=? 4).
+
 Definition mfc_check (c : mfc_case) : bool :=
+  Bool.eqb (mf_block_valid mfc_builtin [] (mfc_block_names c)) (mfc_block_accepted c) &&
+  if negb (mfc_block_accepted c) then true else
   let gn := {| gn_share_ratio := f64_of_bits (mfc_ratio_bits c); gn_block_reward := mfc_block_reward c;
                gn_reward_rate := f64_of_bits (mfc_rate_bits c); gn_nmd := mfc_nmd c; gn_nsd := mfc_nsd c |} in
   let bk := {| bk_round := mfc_round c; bk_miner := mfc_generator c; bk_fees := mfc_fees c |} in
